@@ -187,6 +187,115 @@ theorem bare_request_shape (env : Env) (fuel : Nat) (op : Op) (args : List (Stri
   · have := marshal_names env _ _ _ _ _ _ _ hip
     exact ⟨this.2, p, hp, this.1⟩
 
+/-- **Attributes on their owner**: besides `xsi:type`, the attributes of an object's element are
+exactly those attributes of its actual type (inherited first) for which the value holds a text,
+each unqualified and named as declared. -/
+theorem object_attributes (env : Env) (f : Nat) (name : String) (ns : Option String) (k : Key)
+    (nl : Bool) (real : Option Key) (fields : List (String × Val)) (i : Info)
+    (hi : i ∈ marshal env (f + 1) name ns (.complex k) nl (.obj real fields)) :
+    i.attrsOf.filter (fun a => a.ns == none) =
+      (attrsOf env (env.types.length + 1) (real.getD k)).filterMap (attrInfo fields) ∧
+    ∀ a ∈ (attrsOf env (env.types.length + 1) (real.getD k)).filterMap (attrInfo fields),
+      ∃ d ∈ attrsOf env (env.types.length + 1) (real.getD k), a.name = d.name ∧ a.ns = none := by
+  rw [marshal_obj] at hi
+  simp only [List.mem_singleton] at hi
+  subst hi
+  have hall : ∀ a ∈ (attrsOf env (env.types.length + 1) (real.getD k)).filterMap (attrInfo fields),
+      ∃ d ∈ attrsOf env (env.types.length + 1) (real.getD k), a.name = d.name ∧ a.ns = none := by
+    intro a ha
+    obtain ⟨d, hd, hda⟩ := List.mem_filterMap.mp ha
+    refine ⟨d, hd, ?_⟩
+    unfold attrInfo at hda
+    split at hda
+    · cases hda; exact ⟨rfl, rfl⟩
+    · simp at hda
+  refine ⟨?_, hall⟩
+  simp only [Info.attrsOf, List.filter_append]
+  have h1 : (List.filter (fun a => a.ns == none)
+      (if (real.getD k == k && !env.encoded) = true then [] else [xsiType env (real.getD k)])) = [] := by
+    split <;> simp [xsiType]
+  rw [h1, List.nil_append]
+  apply List.filter_eq_self.mpr
+  intro a ha
+  obtain ⟨_, _, _, hn⟩ := hall a ha
+  simp [hn]
+
+mutual
+  /-- every node of the tree satisfies `p` -/
+  def allNodes (p : Info → Bool) : Info → Bool
+    | .mk ns n a t kids => p (.mk ns n a t kids) && allKidsNodes p kids
+  def allKidsNodes (p : Info → Bool) : List Info → Bool
+    | [] => true
+    | k :: ks => allNodes p k && allKidsNodes p ks
+end
+
+theorem allKidsNodes_of_mem (p : Info → Bool) : ∀ (l : List Info), (∀ i ∈ l, allNodes p i = true) →
+    allKidsNodes p l = true := by
+  intro l
+  induction l with
+  | nil => intro _; rfl
+  | cons a l ih =>
+    intro h
+    simp only [allKidsNodes, Bool.and_eq_true]
+    exact ⟨h a (by simp), ih (fun i hi => h i (List.mem_cons_of_mem _ hi))⟩
+
+def hasXsiType (i : Info) : Bool := i.attrsOf.any fun a => a.ns == some xsiUri && a.name == "type"
+
+/-- **Section-5 encoding: every element names its type** — at every depth of every value tree
+(None, leaves, structs, arrays and their items), under rpc/encoded each written element carries an
+`xsi:type` attribute. -/
+theorem encoded_every_element_typed (env : Env) (henc : env.encoded = true) :
+    ∀ (f : Nat) (name : String) (ns : Option String) (t : TRef) (nl : Bool) (v : Val) (i : Info),
+      i ∈ marshal env f name ns t nl v → allNodes hasXsiType i = true := by
+  intro f
+  induction f with
+  | zero => intro name ns t nl v i h; simp [marshal] at h
+  | succ f ih =>
+    intro name ns t nl v i h
+    cases v with
+    | none =>
+      simp only [marshal, List.mem_singleton] at h; subst h
+      simp [allNodes, allKidsNodes, hasXsiType, Info.attrsOf, encType, henc]
+    | leaf s =>
+      simp only [marshal, List.mem_singleton] at h; subst h
+      simp [allNodes, allKidsNodes, hasXsiType, Info.attrsOf, encType, henc]
+    | list items =>
+      cases t with
+      | array k =>
+        simp only [marshal, List.mem_singleton] at h; subst h
+        simp only [allNodes, Bool.and_eq_true]
+        refine ⟨by simp [hasXsiType, Info.attrsOf, encType, henc], ?_⟩
+        apply allKidsNodes_of_mem
+        intro j hj
+        obtain ⟨x, _, hx⟩ := List.mem_flatMap.mp hj
+        exact ih _ _ _ _ _ _ hx
+      | builtin n =>
+        simp only [marshal, List.mem_flatMap] at h
+        obtain ⟨x, _, hx⟩ := h
+        exact ih _ _ _ _ _ _ hx
+      | complex k =>
+        simp only [marshal, List.mem_flatMap] at h
+        obtain ⟨x, _, hx⟩ := h
+        exact ih _ _ _ _ _ _ hx
+    | obj real fields =>
+      cases t with
+      | builtin n => simp [marshal] at h
+      | array k => simp [marshal] at h
+      | complex k =>
+        rw [marshal_obj] at h
+        simp only [List.mem_singleton] at h; subst h
+        simp only [allNodes, Bool.and_eq_true]
+        refine ⟨by simp [hasXsiType, Info.attrsOf, henc, xsiType], ?_⟩
+        apply allKidsNodes_of_mem
+        intro j hj
+        obtain ⟨md, _, hmd⟩ := List.mem_flatMap.mp hj
+        unfold emit at hmd
+        split at hmd
+        · simp at hmd
+        · split at hmd
+          · simp at hmd
+          · exact ih _ _ _ _ _ _ hmd
+
 /-! Non-vacuity: a concrete two-type environment with inheritance across namespaces. -/
 def exEnv : Env :=
   { uris := ["urn:a", "urn:b"],
